@@ -164,6 +164,25 @@ def main():
                              {"case": {"kind": "matchseq", "steps": c["steps"][: k + 1]}, "impl": o, "model": m}, tag="seq"); break
     classes["reuse_sequences"] = nseq
 
+    # Bindings.Bind (the substitution used by pattern queries) against the model's `subst`: a bound variable is replaced by its value
+    # whatever that value is (null, false, 0, "" and structured values included), an unbound one stays
+    nb = 1500 if not ck.thorough else 30000
+    bcases = []
+    for _ in range(nb):
+        d = gen.data(rng, depth=rng.randint(1, 3), width=3)
+        p = gen.pattern_from(rng, d, var_prob=0.5, repeat_prob=0.3, allow_anon=False)
+        bs = {}
+        for v in rng.sample(gen.VARS, rng.randint(0, 4)):
+            bs[v] = rng.choice([None, False, 0, "", gen.scalar(rng), gen.data(rng, 1, 2, top_map=False)])
+        bcases.append({"kind": "bind", "p": p, "bs": bs})
+    bi = run_cases(drv, bcases); bm = run_cases(mdl, bcases)
+    for c, a, b in zip(bcases, bi, bm):
+        ck.count(c)
+        if canon(a) != canon(b):
+            ck.violation("Bindings.Bind differs from the substitution `subst` of the model: impl=%s model=%s" % (canon(a)[:250], canon(b)[:250]), {"case": c, "impl": a, "model": b}, tag="bind")
+            break
+    classes["bind_cases"] = nb
+
     # known findings: replay the witnesses
     for f in kf:
         w = f["witness"]
